@@ -422,11 +422,11 @@ class CooperativeAwarenessMessage:
             ] = self.create_position_confidence(tpv["epx"], tpv["epy"])
         if "altHAE" in tpv.keys():
             alt = int(tpv["altHAE"] * 100)
-            if alt < -800000:
+            if alt <= -100000:  # AltitudeValue negativeOutOfRange: -1 000 m or less
                 self.cam["cam"]["camParameters"]["basicContainer"]["referencePosition"][
                     "altitude"
                 ]["altitudeValue"] = -100000
-            elif alt > 613000:
+            elif alt >= 800000:  # AltitudeValue postiveOutOfRange: 8 000 m or more
                 self.cam["cam"]["camParameters"]["basicContainer"]["referencePosition"][
                     "altitude"
                 ]["altitudeValue"] = 800000
